@@ -97,6 +97,34 @@ class Engine:
             return SV(self.fresh(prefix, NATIVE[pt]()), pt)
         return SV(self.fresh(prefix), pt)
 
+    def named(self, term, st):
+        """a pattern-safe alias of term (fresh constant + defining equation) when term itself cannot occur in a trigger"""
+        if pattern_safe(term):
+            return term
+        key = term.get_id()
+        cache = self.__dict__.setdefault("_named_cache", {})
+        if key not in cache:
+            cache[key] = (self.fresh("alias", term.sort()), term)
+        c, t = cache[key]
+        eqn = c == t
+        if not any(f.get_id() == eqn.get_id() for f in st.facts):
+            st.facts.append(eqn)
+        return c
+
+    def elem_type_fact(self, term, pt, esort):
+        """all elements of container `term` (sort tag pt) have python type esort (native sorts only)"""
+        v = self.voc
+        if esort not in NATIVE:
+            return None
+        c = v.cls[esort]
+        if pt in ("list", "tuple"):
+            j = z3.Int("ej")
+            return z3.ForAll([j], z3.Implies(z3.And(0 <= j, j < v.slen(term)), v.ty(v.sat(term, j)) == c), patterns=[v.sat(term, j)])
+        if pt in ("set", "frozenset"):
+            x = z3.Const("ex", v.Val)
+            return z3.ForAll([x], z3.Implies(v.has(term, x), v.ty(x) == c), patterns=[v.has(term, x)])
+        return None
+
     def heap0(self, attr):
         if attr not in self.attr_arrays:
             self.attr_arrays[attr] = z3.Const(f"H0_{attr}", z3.ArraySort(self.voc.Val, self.voc.Val))
@@ -183,3 +211,23 @@ class Engine:
         if a.pt in ("none", "class") or b.pt in ("none", "class"):
             return self.box(a) == self.box(b)
         return self.voc.pyeq(self.box(a), self.box(b))
+
+
+def pattern_safe(t) -> bool:
+    """z3 rejects patterns that contain boolean connectives / ite"""
+    seen = set()
+    todo = [t]
+    while todo:
+        x = todo.pop()
+        if x.get_id() in seen:
+            continue
+        seen.add(x.get_id())
+        if z3.is_app(x):
+            k = x.decl().kind()
+            if k in (z3.Z3_OP_ITE, z3.Z3_OP_AND, z3.Z3_OP_OR, z3.Z3_OP_NOT, z3.Z3_OP_IMPLIES, z3.Z3_OP_EQ, z3.Z3_OP_LE, z3.Z3_OP_GE,
+                     z3.Z3_OP_LT, z3.Z3_OP_GT, z3.Z3_OP_DISTINCT, z3.Z3_OP_IFF, z3.Z3_OP_XOR):
+                return False
+            todo.extend(x.children())
+        elif z3.is_quantifier(x):
+            return False
+    return True
